@@ -274,6 +274,7 @@ class Ctx:
         self.work = os.path.join(VERIF, ".work", "%s-%d" % (prop, os.getpid()))
         shutil.rmtree(self.work, ignore_errors=True)
         os.makedirs(self.work)
+        shutil.rmtree(os.path.join(VERIF, "replays", prop), ignore_errors=True)   # replays of earlier runs are stale
         self.states = 0
         self.transitions = 0
         self.traces = 0            # behaviours replayed into / traces validated from the implementation
